@@ -420,13 +420,100 @@ func runC03(p *core.Program, r *core.Report) {
 			}
 		}
 		isFound := func(v ssa.Value) bool { return found != nil && v == found }
+		// ... or the lookup is an index function recognised by its body (the module's IndexOf,
+		// x/exp/slices.Index): a complete forward == scan of its first argument that returns
+		// the index of the first match and -1 only after the whole scan. "Found" is then a
+		// test of that index against -1 / 0.
+		if found == nil {
+			for _, in := range path.Instrs(fn) {
+				call, ok := in.(*ssa.Call)
+				if !ok {
+					continue
+				}
+				cal := path.StaticCallee(call)
+				a := call.Call.Args
+				if cal == nil || len(a) != 2 || !isDataLoad(a[0]) || a[1] != ssa.Value(paramByName(fn, "val")) || !eqScan(p, cal, true) {
+					continue
+				}
+				idx = call
+				c.ob("PV2", fname, "looks the value up in the live array", p.InstrPos(call), true, "")
+			}
+		}
+		idxFound := func(b *ssa.BasicBlock, want bool) bool {
+			if idx == nil || found != nil {
+				return false
+			}
+			allowed := map[int64]bool{-1: true, 0: true, 1: true, 2: true}
+			seen := false
+			for _, g := range path.Guards(fn, b) {
+				cd, ok := path.CondOf(g.If)
+				if !ok {
+					continue
+				}
+				truth := g.Idx == 0
+				if cd.Neg {
+					truth = !truth
+				}
+				op, l, r := cd.Op, cd.X, cd.Y
+				if r == idx {
+					l, r = r, l
+					switch op {
+					case token.LSS:
+						op = token.GTR
+					case token.LEQ:
+						op = token.GEQ
+					case token.GTR:
+						op = token.LSS
+					case token.GEQ:
+						op = token.LEQ
+					}
+				}
+				k, isK := path.IntConst(r)
+				if l != idx || !isK {
+					continue
+				}
+				seen = true
+				for v := range allowed {
+					var res bool
+					switch op {
+					case token.EQL:
+						res = v == k
+					case token.NEQ:
+						res = v != k
+					case token.LSS:
+						res = v < k
+					case token.LEQ:
+						res = v <= k
+					case token.GTR:
+						res = v > k
+					case token.GEQ:
+						res = v >= k
+					default:
+						continue
+					}
+					if res != truth {
+						delete(allowed, v)
+					}
+				}
+			}
+			if !seen {
+				return false
+			}
+			if want {
+				return !allowed[-1] && allowed[0] && allowed[1] && allowed[2]
+			}
+			return allowed[-1] && !allowed[0] && !allowed[1] && !allowed[2]
+		}
+		foundAt := func(b *ssa.BasicBlock, want bool) bool {
+			return boolGuard(fn, b, isFound, want) || idxFound(b, want)
+		}
 		sts := dataStores(fn)
 		c.ob("PT1", fname, "array shortened at one site", c.fpos(fn), len(sts) == 1, fmt.Sprintf("expected one store to h.data, found %d", len(sts)))
 		for _, st := range sts {
 			sl, ok := st.Val.(*ssa.Slice)
 			okOne := ok && sl.Low == nil && sl.High != nil && isDataLoad(sl.X) && x.path(sl.High) == "(len(h.data)-1)"
 			c.ob("AG6", fname, "shortened by exactly one", p.InstrPos(st), okOne, "a successful Delete must shorten h.data by exactly one element")
-			c.ob("PT3", fname, "only when the value was found", p.InstrPos(st), boolGuard(fn, st.Block(), isFound, true), "h.data is shortened on a path not dominated by getIndex's found == true: an absent value removes an element")
+			c.ob("PT3", fname, "only when the value was found", p.InstrPos(st), foundAt(st.Block(), true), "h.data is shortened on a path not dominated by getIndex's found == true: an absent value removes an element")
 		}
 		// the victim is swapped with the last slot before truncation
 		okSwap := false
@@ -436,7 +523,7 @@ func runC03(p *core.Program, r *core.Report) {
 				// swap is symmetric in its two slots
 				direct := a[1] == idx && x.path(a[2]) == "(len(h.data)-1)"
 				mirrored := a[2] == idx && x.path(a[1]) == "(len(h.data)-1)"
-				if isDataLoad(a[0]) && (direct || mirrored) && boolGuard(fn, call.Block(), isFound, true) {
+				if isDataLoad(a[0]) && (direct || mirrored) && foundAt(call.Block(), true) {
 					okSwap = true
 				}
 			}
@@ -455,12 +542,12 @@ func runC03(p *core.Program, r *core.Report) {
 				continue
 			}
 			if bc {
-				c.ob("PT3", fname, "true only after a removal", p.InstrPos(rt), boolGuard(fn, b, isFound, true) && path.IsNil(rv[1]), "Delete reports success (true, nil) on a path where no element was found")
+				c.ob("PT3", fname, "true only after a removal", p.InstrPos(rt), foundAt(b, true) && path.IsNil(rv[1]), "Delete reports success (true, nil) on a path where no element was found")
 			} else {
 				c.ob("PT3", fname, "absence reported with an error", p.InstrPos(rt), !path.IsNil(rv[1]), "Delete must return an error when it removes nothing")
 				// nothing is removed only when the value was looked up and not found, or
 				// when the heap is known to be empty
-				notFound := boolGuard(fn, b, isFound, false)
+				notFound := foundAt(b, false)
 				empty := hasFact(edgeFacts(x, fn, b), "len(h.data)", "==", "0")
 				c.ob("PT3", fname, "refuses only an absent value or an empty heap", p.InstrPos(rt), notFound || empty, "Delete gives up on a path where neither the lookup failed nor the heap is known to be empty (len(h.data) == 0): present values are not removed")
 				w := 0
